@@ -263,3 +263,30 @@ package json
 //@   ensures num_acc(q) && q != NUM_XZ && numexp(b.data, len(b.data)) <= 1099511627776 ==> result1 == nil
 //@   no_panic
 //@   at call:Scan use unfold_mantcount(b.data, 0); unfold_mantstop(b.data, 0)
+
+// ---- JSON types (C20) ------------------------------------------------------------------------------------
+
+//@ fun jsonTypeName(t Type) string := t == 1 ? "object" : (t == 2 ? "array" : (t == 3 ? "string" : (t == 4 ? "integer" : (t == 5 ? "float" : (t == 6 ? "boolean" : (t == 7 ? "null" : (t == 8 ? "mixed" : "unknown")))))))
+//@ fun jsonTokenType(t Type) string := t == 1 ? "object" : (t == 2 ? "array" : (t == 3 ? "string" : (t == 4 || t == 5 ? "number" : (t == 6 ? "boolean" : (t == 7 ? "null" : (t == 8 ? "reference" : ""))))))
+
+//@ func (Type).String
+//@   property C20
+//@   ensures result == jsonTypeName(t)
+//@   no_panic
+
+//@ func (Type).ToTokenType
+//@   property C20
+//@   ensures result == jsonTokenType(t)
+//@   no_panic
+
+//@ func (Type).IsLiteralType
+//@   property C20
+//@   ensures result == (t == 3 || t == 6 || t == 4 || t == 5 || t == 7 || t == 8)
+//@   no_panic
+
+//@ func NewJsonType
+//@   property C20
+//@   panics when !(eqlit(b.data, "object") || eqlit(b.data, "array") || eqlit(b.data, "string") || eqlit(b.data, "integer") || eqlit(b.data, "float") || eqlit(b.data, "boolean") || eqlit(b.data, "null"))
+//@   ensures 1 <= result && result <= 7
+//@   ensures (result == 1) == eqlit(b.data, "object") && (result == 2) == eqlit(b.data, "array") && (result == 3) == eqlit(b.data, "string") && (result == 4) == eqlit(b.data, "integer")
+//@   ensures (result == 5) == eqlit(b.data, "float") && (result == 6) == eqlit(b.data, "boolean") && (result == 7) == eqlit(b.data, "null")
